@@ -708,3 +708,186 @@ Section Refine.
     now rewrite (read_unfold reg st output p wf (enode e) nd re Ei Hr).
   Qed.
 End Refine.
+
+(** * The executable check of Link.v never reports a mismatch *)
+Lemma eqb_of_iff a b : (a = true <-> b = true) -> Bool.eqb a b = true.
+Proof.
+  destruct a, b; cbn; intros [H1 H2]; auto; symmetry; auto.
+Qed.
+
+Lemma filter_nil_intro {A} (f : A -> bool) l : (forall x, In x l -> f x = false) -> filter f l = [].
+Proof.
+  induction l as [|a l IH]; intros H; cbn; [reflexivity|]. rewrite (H a) by now left.
+  apply IH. intros x Hx. apply H. now right.
+Qed.
+
+Section Real.
+  Variables (reg : registry) (sg : sstate) (fresh : option Z) (output : option nat) (p : plan).
+  Hypothesis wf : wf_plan p.
+  Hypothesis dom : forall i e, reg i = Some e -> i < length p.
+  Hypothesis out_ok : forall o, output = Some o -> o < length p.
+  Notation st := (is_stale reg sg fresh p).
+  Notation phys := (fst (physical (to_pgraph p) (length p) (entries_of reg st (length p)) output)).
+  Notation ids := (entry_ids (length p) (entries_of reg st (length p))).
+
+  (** C04/C05: a Call is handed to the engine iff L1 says its function runs *)
+  Theorem refine_exec i nd :
+    nth_error p i = Some nd -> is_call nd = true ->
+    (In i (pnodes phys) <-> is_exec reg sg fresh output p i = true).
+  Proof.
+    intros Hi Hc. rewrite (R2_calls reg st output p wf dom out_ok i nd Hi Hc).
+    unfold is_exec. rewrite Hi, Hc. reflexivity.
+  Qed.
+
+  (** C05: the write call of an entry is in the physical plan iff L1 says the store is written *)
+  Theorem refine_written e ce :
+    In (e, ce) ids -> esource e = false ->
+    ((estale e = true /\ In (write_id ce) (pnodes phys)) <-> is_written reg sg fresh p (enode e) = true).
+  Proof.
+    intros Hin Hso. rewrite (R1_writes reg st output p wf dom e ce Hin Hso).
+    destruct (ids_inv reg st p dom e ce Hin) as [re [Hr [Hs _]]].
+    unfold is_written, st_of. rewrite Hr, <- Hs, Hso. cbn. now rewrite andb_true_r.
+  Qed.
+
+  (** C09: the read call of an entry is in the physical plan iff L1 says the store is read *)
+  Theorem refine_read e ce :
+    src_no_args reg p -> In (e, ce) ids ->
+    (In (read_id ce) (pnodes phys) <-> is_read reg sg fresh output p (enode e) = true).
+  Proof. intros Hsrc Hin. exact (R3_reads_table reg st output p wf dom out_ok e ce Hsrc Hin). Qed.
+
+  (** what [Link.link_mismatches] computes on every generated case is provably empty *)
+  Theorem link_mismatches_nil : src_no_args reg p -> link_mismatches reg sg fresh output p = [].
+  Proof.
+    intros Hsrc. unfold link_mismatches. cbv zeta.
+    rewrite (filter_nil_intro _ ids), (filter_nil_intro _ (seq 0 (length p))); [reflexivity | |].
+    - intros i _. destruct (nth_error p i) as [nd|] eqn:Ei; [|reflexivity].
+      destruct (is_call nd) eqn:Ec; [|reflexivity]. cbn [andb]. apply negb_false_iff, eqb_of_iff.
+      rewrite inb_In. exact (refine_exec i nd Ei Ec).
+    - intros [e ce] Hin. cbn [fst snd]. apply orb_false_iff. split.
+      + apply negb_false_iff, eqb_of_iff. rewrite inb_In. now apply refine_read.
+      + destruct (estale e) eqn:Est; [|reflexivity]. destruct (esource e) eqn:Eso; [reflexivity|].
+        cbn [andb negb]. apply negb_false_iff, eqb_of_iff. rewrite inb_In.
+        pose proof (refine_written e ce Hin Eso) as H. rewrite Est in H. tauto.
+  Qed.
+End Real.
+
+(** * Part E: non-vacuity on the 6-node plan of Minimal.v (source 0 -> stored 1 -> unstored 2 -> stored 3,
+    a plain Dependency 1 -> 3, the unwanted side call 4, the up-to-date stored call 5; output 3) *)
+Example ex6_dom : forall i e, ex_reg6 i = Some e -> i < length ex_plan6.
+Proof. intros i e H. do 6 (destruct i as [|i]; [cbn; lia|]). discriminate. Qed.
+Example ex6_out : forall o, Some 3 = Some o -> o < length ex_plan6.
+Proof. intros o H. inversion H. cbn. lia. Qed.
+Example ex6_src : src_no_args ex_reg6 ex_plan6.
+Proof.
+  intros i re nd Hr Hs Hi. do 6 (destruct i as [|i]; [inversion Hi; subst; try reflexivity; inversion Hr; subst; discriminate|]).
+  destruct i; discriminate.
+Qed.
+
+Definition ex6_st := is_stale ex_reg6 ex_sg6 None ex_plan6.
+Definition ex6_es := entries_of ex_reg6 ex6_st (length ex_plan6).
+Definition ex6_phys := fst (physical (to_pgraph ex_plan6) (length ex_plan6) ex6_es (Some 3)).
+
+Example ex6_tctx : tctx (to_pgraph ex_plan6) (length ex_plan6) ex6_es.
+Proof. exact (R0_tctx ex_reg6 ex6_st ex_plan6 ex_wf6 ex6_dom). Qed.
+
+Example ex6_ids :
+  entry_ids (length ex_plan6) ex6_es =
+  [ ({| enode := 0; esource := true; estale := false |}, 6);
+    ({| enode := 1; esource := false; estale := true |}, 8);
+    ({| enode := 3; esource := false; estale := true |}, 11);
+    ({| enode := 5; esource := false; estale := false |}, 14) ].
+Proof. vm_compute. reflexivity. Qed.
+
+Example ex6_phys_nodes : pnodes ex6_phys = [1; 2; 3; 6; 7; 8; 9; 10; 11; 12; 13].
+Proof. vm_compute. reflexivity. Qed.
+
+(** both sides of each iff, computed: kept original nodes = active nodes (1 2 3; not the source 0, not the
+    side call 4, not the up-to-date 5); kept read nodes 7 9 12 (entries 0 1 3) = stores read, read node 15
+    of entry 5 is pruned = store 5 not read; write nodes 10 13 kept = stores 1 3 written *)
+Example ex6_both_sides :
+  map (fun i => inb i (pnodes ex6_phys)) (seq 0 6) = map (active ex_reg6 ex_sg6 None (Some 3) ex_plan6) (seq 0 6)
+  /\ map (active ex_reg6 ex_sg6 None (Some 3) ex_plan6) (seq 0 6) = [false; true; true; true; false; false]
+  /\ map (fun c => inb (read_id c) (pnodes ex6_phys)) [6; 8; 11; 14] =
+     map (is_read ex_reg6 ex_sg6 None (Some 3) ex_plan6) [0; 1; 3; 5]
+  /\ map (is_read ex_reg6 ex_sg6 None (Some 3) ex_plan6) [0; 1; 3; 5] = [true; true; true; false]
+  /\ map (fun c => inb (write_id c) (pnodes ex6_phys)) [8; 11] = [true; true]
+  /\ map (is_written ex_reg6 ex_sg6 None ex_plan6) [0; 1; 3; 5] = [false; true; true; false].
+Proof. vm_compute. repeat split; reflexivity. Qed.
+
+(** instances obtained FROM the theorems *)
+Example ex6_exec_2 : In 2 (pnodes ex6_phys) <-> is_exec ex_reg6 ex_sg6 None (Some 3) ex_plan6 2 = true.
+Proof.
+  unfold ex6_phys, ex6_es, ex6_st.
+  exact (refine_exec ex_reg6 ex_sg6 None (Some 3) ex_plan6 ex_wf6 ex6_dom ex6_out 2 (ex_nd true [1] []) eq_refl eq_refl).
+Qed.
+Example ex6_exec_4 : ~ In 4 (pnodes ex6_phys).
+Proof.
+  unfold ex6_phys, ex6_es, ex6_st. intros H.
+  apply (proj1 (refine_exec ex_reg6 ex_sg6 None (Some 3) ex_plan6 ex_wf6 ex6_dom ex6_out 4
+                  (ex_nd true [2] []) eq_refl eq_refl)) in H.
+  vm_compute in H. discriminate.
+Qed.
+Example ex6_in_1 :
+  In ({| enode := 1; esource := false; estale := true |}, 8)
+     (entry_ids (length ex_plan6) (entries_of ex_reg6 (is_stale ex_reg6 ex_sg6 None ex_plan6) (length ex_plan6))).
+Proof. change (In ({| enode := 1; esource := false; estale := true |}, 8) (entry_ids (length ex_plan6) ex6_es)). rewrite ex6_ids. cbn. auto. Qed.
+Example ex6_in_5 :
+  In ({| enode := 5; esource := false; estale := false |}, 14)
+     (entry_ids (length ex_plan6) (entries_of ex_reg6 (is_stale ex_reg6 ex_sg6 None ex_plan6) (length ex_plan6))).
+Proof. change (In ({| enode := 5; esource := false; estale := false |}, 14) (entry_ids (length ex_plan6) ex6_es)). rewrite ex6_ids. cbn. auto 10. Qed.
+Example ex6_read_1 : In (read_id 8) (pnodes ex6_phys).
+Proof.
+  unfold ex6_phys, ex6_es, ex6_st.
+  apply (proj2 (refine_read ex_reg6 ex_sg6 None (Some 3) ex_plan6 ex_wf6 ex6_dom ex6_out _ 8 ex6_src ex6_in_1)).
+  vm_compute. reflexivity.
+Qed.
+Example ex6_not_read_5 : ~ In (read_id 14) (pnodes ex6_phys).
+Proof.
+  unfold ex6_phys, ex6_es, ex6_st. intros H.
+  pose proof (proj1 (refine_read ex_reg6 ex_sg6 None (Some 3) ex_plan6 ex_wf6 ex6_dom ex6_out _ 14 ex6_src ex6_in_5) H) as H'.
+  clear H. vm_compute in H'. discriminate.
+Qed.
+Example ex6_link : link_mismatches ex_reg6 ex_sg6 None (Some 3) ex_plan6 = [].
+Proof. exact (link_mismatches_nil ex_reg6 ex_sg6 None (Some 3) ex_plan6 ex_wf6 ex6_dom ex6_out ex6_src). Qed.
+
+(** why (R1) carries the guard [estale e = true]: the up-to-date entry (0, 6) has no write node, and
+    [write_id 6 = 8] is the store literal of the next entry, which IS in the physical plan *)
+Example ex_write_id_overlap :
+  In ({| enode := 0; esource := true; estale := false |}, 6) (entry_ids (length ex_plan6) ex6_es) /\
+  write_id 6 = lit_id 8 /\ In (write_id 6) (pnodes ex6_phys).
+Proof. rewrite ex6_ids, ex6_phys_nodes. cbn. auto 20. Qed.
+
+(** * The one input class on which L1 and L2 differ: a stale SOURCE that takes a stored node as an
+    ARGUMENT (impossible through [registry.source], which creates a call without arguments).  L2 wires the
+    read node of the argument to the source's Barrier, a pruning root, so the read survives; L1's [is_read]
+    only counts consumers that compute.  Hence [src_no_args] in [R3_reads] / [link_mismatches_nil]. *)
+Definition cx_plan : plan := [ ex_nd true [] []; ex_nd true [0] [] ].
+Definition cx_reg : registry := fun i =>
+  match i with
+  | 0 => Some {| store := 0; is_src := false |}
+  | 1 => Some {| store := 1; is_src := true |}
+  | _ => None
+  end.
+Definition cx_sg : sstate := fun s => match s with 0 => Some (7, 10)%Z | _ => None end.
+
+Example cx_hyps :
+  wf_plan cx_plan /\ (forall i e, cx_reg i = Some e -> i < length cx_plan) /\ ~ src_no_args cx_reg cx_plan.
+Proof.
+  split; [|split].
+  - intros i nd Hi j Hj. do 2 (destruct i as [|i]; [inversion Hi; subst; cbn in Hj; intuition lia|]).
+    destruct i; discriminate.
+  - intros i e H. do 2 (destruct i as [|i]; [cbn; lia|]). discriminate.
+  - intros H. specialize (H 1 _ _ eq_refl eq_refl eq_refl). discriminate.
+Qed.
+
+Example cx_link_mismatch : link_mismatches cx_reg cx_sg None None cx_plan = [0].
+Proof. vm_compute. reflexivity. Qed.
+
+Example cx_read_kept_not_read :
+  let st := is_stale cx_reg cx_sg None cx_plan in
+  entry_ids 2 (entries_of cx_reg st 2) =
+    [ ({| enode := 0; esource := false; estale := false |}, 2);
+      ({| enode := 1; esource := true; estale := true |}, 4) ] /\
+  In (read_id 2) (pnodes (fst (physical (to_pgraph cx_plan) 2 (entries_of cx_reg st 2) None))) /\
+  is_read cx_reg cx_sg None None cx_plan 0 = false.
+Proof. vm_compute. repeat split; auto. Qed.
